@@ -31,7 +31,10 @@ def leaf_values(k):
     if k == 'REAL':
         return ['inf', '-inf', (0, 2, 0), (1, 2, 0), (1, 2, 1), (-1, 2, -1), (3, 2, 10), (5, 2, -130), (7, 2, 200),
                 (-3, 2, 40000), (1, 2, -70000), (12, 2, 0), (255, 2, 3), (65537, 2, -1), (2 ** 60 + 1, 2, -1),
-                (1, 2, -4), (-3, 2, -7), (2 ** 70 + 3, 2, -2)]
+                (1, 2, -4), (-3, 2, -7), (2 ** 70 + 3, 2, -2),
+                # decimal form beyond the double range / the double mantissa; the smallest doubles
+                (1, 10, 400), (1, 10, -400), (12345678901234567890123, 10, 0), (15, 10, -1), (1, 2, -1074),
+                (9999999999999962, 10, -326)]
     if k in ('UTF8String',):
         return ['', 'a', 'héllo', '日本', 'x' * 130]
     if k in ('BMPString',):
@@ -99,6 +102,8 @@ def records():
                               'UTF8String': 'm%d' % i}[k]]
     for kind in ('SEQUENCE', 'SET'):
         for fields in shapes:
+            if kind == 'SET' and len({outer_tag(ft) for n_, ft, m_ in fields}) < len(fields):
+                continue          # members of a SET need distinct tags
             for ts in ([], [('E', CTX, 3)], [('I', APP, 9)]):
                 t = T(kind, ts, fields=fields)
                 opt = [f for f in fields if f[2] != 'req']
